@@ -178,8 +178,8 @@ theorem tinv_leaveAbrupt {k : K} (h : TInv k) : TInv (leaveAbrupt k) := by
     have : (k.getP q).state ≠ .pending := hq
     have := h.settled q this; omega
 
-theorem tinv_popJob {k : K} (h : TInv k) : TInv (popJob k) := by
-  unfold popJob
+theorem tinv_popJobQ {k : K} (h : TInv k) : TInv (popJobQ k) := by
+  unfold popJobQ
   split
   · exact h
   · rename_i j rest hc
@@ -225,9 +225,28 @@ theorem tinv_applyOp {k : K} (h : TInv k) (op : KOp) : TInv (applyOp op k) := by
   | newCap => exact tinv_newCap h
   | callResolve l v look => exact tinv_callResolve h l v look
   | callReject l v => exact tinv_callReject h l v
-  | addReactions p cap f g => exact tinv_addReactions h p cap f g
-  | popJob => exact tinv_popJob h
+  | addReactions p cap f g =>
+    simp only [applyOp]
+    split
+    · exact tinv_addReactions h p cap f g
+    · exact h
+  | popJob =>
+    simp only [applyOp, popJob]
+    split
+    · exact h
+    · exact tinv_congr (tinv_popJobQ h) rfl rfl rfl (fun q => rfl)
   | leaveAbrupt => exact tinv_leaveAbrupt h
+  | asyncStart => exact tinv_congr h rfl rfl rfl (fun q => rfl)
+  | await ar p =>
+    simp only [applyOp, awaitOp]
+    split
+    · exact tinv_congr (tinv_addReactions h p none _ _) rfl rfl rfl (fun q => rfl)
+    · exact h
+  | asyncDone ar =>
+    simp only [applyOp, asyncDone]
+    split
+    · exact tinv_congr h rfl rfl rfl (fun q => rfl)
+    · exact h
 
 theorem tinv_reach {k : K} (h : Reach k) : TInv k := by
   induction h with
